@@ -62,7 +62,12 @@ class Real:
             elif k == "emSetMember":
                 self.emvars[op[1]][op[2]].radius = float(op[3])
             elif k == "emRemoveSmall":
-                self.emvars[op[1]].remove_small(float(op[2]))
+                em = self.emvars[op[1]]
+                keep = [id(d) for d in em if d.radius > float(op[2])]
+                em.remove_small(float(op[2]))
+                if [id(d) for d in em] != keep:
+                    self.notes.append(f"remove_small({op[2]}) on an emulsion: the members afterwards are not the SAME objects (in their order) that exceeded the radius before - "
+                                      "an in-place filter of the list model deletes entries and keeps the others")
             elif k == "emClear":
                 self.emvars[op[1]].clear()
             elif k == "emLink":
@@ -247,7 +252,7 @@ def run_sequence(ck: Check, ops, reqs, expect, key):
         res = real.exec(op)
         outs.append(f"{res} {real.dump()}")
         if real.notes:
-            ck.fail(real.notes[0], {"check": "append_pairs_member_with_given_time"}, {"ops": [" ".join(map(str, o)) for o in ops[: len(outs)]]})
+            ck.fail(real.notes[0], {"check": "append_pairs_member_with_given_time" if "append" in real.notes[0] else "inplace_filter_keeps_objects"}, {"ops": [" ".join(map(str, o)) for o in ops[: len(outs)]]})
             real.notes.clear()
     ck.case(key, nontrivial=len(ops) > 3)
     reqs.append("c20 " + " ; ".join(toks))
